@@ -271,6 +271,9 @@ func (prop) Generate(rng *core.Rand, tier string, emit func(string)) {
 	}
 	bad := rng.Fork()
 	prx := rng.Fork()
+	// two cases on the real clock (oracle only)
+	emit(fmt.Sprintf("tim %d %d", 120+prx.Intn(80), 40+prx.Intn(30)))
+	emit(fmt.Sprintf("tim %d 0", 260+prx.Intn(60)))
 	for k := 0; k < total; k++ {
 		if k%12 == 5 {
 			emit(genProxy(prx))
